@@ -8,11 +8,13 @@ self; creation of new timers with their own callback scripts; TimerPool calls), 
 tie-break among equal deadlines (`fire tok` is enabled for every due record of minimal
 deadline).  `exec init sts = some s` says that `sts` is such an execution.
 Sections: timer core (round 1) · termination of a pass and exact catch-up count · TimerPool.
+Round 3 (machine widths, explicit heap, waiting time of both engines): `WideProps.lean`, imported here.
 -/
 import TboxModel.C02.Proofs
 import TboxModel.C02.Dead
 import TboxModel.C02.Catchup
 import TboxModel.C02.PoolProofs
+import TboxModel.C02.WideProps
 namespace Tbox.C02
 
 /-- Master statement: every callback ever made is legitimate (see `FiredOk`). -/
